@@ -38,10 +38,7 @@ func shapes() []shape {
 	bin := "\x00\x01binary\xff data long enough for more than one base64 line: 0123456789012345678901234567890123456789"
 	base := func() bytex.MsgSpec {
 		return bytex.MsgSpec{From: "from@x.test", To: []string{"to@y.test"},
-			Gen: []bytex.KV{{K: "Subject", V: []string{"repeatable rendering"}},
-				// multi-valued headers with empty values in every position, and a value that needs encoding
-				{K: "Keywords", V: []string{"alpha", "", "omega"}}, {K: "X-Multi", V: []string{"", "na\xc3\xafve", "", "last"}},
-				{K: "X-Empty-Last", V: []string{"one", "two", ""}}}}
+			Gen: []bytex.KV{{K: "Subject", V: []string{"repeatable rendering"}}}}
 	}
 	P := func(ct, enc, content string) bytex.PartSpec { return bytex.PartSpec{CType: ct, Enc: enc, Prod: prod(content)} }
 	F := func(name, enc, desc, content string) bytex.FileSpec {
@@ -223,6 +220,23 @@ func renderOp(m *mail.Msg, op string, dir string, rd **mail.Reader) ([]byte, boo
 			return nil, true, fmt.Errorf("server committed %d messages", len(commits))
 		}
 		return commits[0].Data, true, nil
+	case 'e':
+		// an edit between renders: e<kind>:<hex args>
+		f := strings.Split(op, ":")
+		switch {
+		case f[0] == "eS" && len(f) == 2:
+			m.Subject(string(hx.UnHex(f[1])))
+		case f[0] == "eA" && len(f) == 4:
+			pr := bytex.Producer{Chunks: [][]byte{hx.UnHex(f[3])}}
+			m.AddAlternativeWriter(mail.ContentType(hx.UnHex(f[1])), pr.Write, mail.WithPartEncoding(mail.Encoding(f[2])))
+		case f[0] == "eT" && len(f) == 4:
+			if err := m.AttachReader(string(hx.UnHex(f[1])), bytes.NewReader(hx.UnHex(f[3]))); err != nil {
+				return nil, false, err
+			}
+		default:
+			return nil, false, fmt.Errorf("bad edit op %q", op)
+		}
+		return nil, false, nil
 	case 'P':
 		flakyFail = !flakyFail
 		return nil, false, nil
@@ -287,6 +301,13 @@ func runCase(r *hx.Run, c hx.Case, sh []shape) {
 		for i, op := range ops {
 			b, isRender, err := renderOp(m, op, dir, &rd)
 			if !isRender {
+				if err != nil {
+					r.Fail(c.ID, "harness-edit", err.Error())
+					return
+				}
+				if op[0] == 'e' {
+					have = false // the edited message: the next render is the new reference
+				}
 				continue
 			}
 			if flakyFail {
@@ -306,9 +327,16 @@ func runCase(r *hx.Run, c hx.Case, sh []shape) {
 					if !bytes.Equal(b, sendCanon(first)) {
 						r.Fail(c.ID, class, fmt.Sprintf("op %d (%s) differs from the first render: %s", i, op, firstDiff(sendCanon(first), b)))
 					}
-					outs = append(outs, first)
+					outs = append(outs, b)
 					continue
 				}
+			}
+			if op[0] == 'S' {
+				// first render of the (edited) message through Send: the reference is what was rendered; the
+				// committed data is that with a final CRLF
+				outs = append(outs, b)
+				first, have = b, true
+				continue
 			}
 			if !have {
 				first, have = cmp, true
@@ -388,6 +416,13 @@ func Run(r *hx.Run, replay []hx.Case) {
 				fixed = append(fixed, []string{fmt.Sprintf("K%d", k), "W", "W"}, []string{"W", fmt.Sprintf("K%d", k), "R", "W"})
 			}
 		}
+		if s.extra == nil {
+			eS := "eS:" + hx.Hex([]byte("edited subject \xc3\xa4"))
+			eA := "eA:" + hx.Hex([]byte("text/x-added")) + ":base64:" + hx.Hex([]byte("added alternative\r\n"))
+			eT := "eT:" + hx.Hex([]byte("added.bin")) + ":" + hx.Hex([]byte("application/octet-stream")) + ":" + hx.Hex([]byte("added attachment data"))
+			fixed = append(fixed, []string{"W", eS, "W", "R"}, []string{"W", eA, "F", "W"}, []string{"R", eT, "U", "W", "S"},
+				[]string{"K50", eS, eA, eT, "W", "w", "T"}, []string{"W", eT, "K333", eA, "W", "X"})
+		}
 		for _, h := range fixed {
 			runCase(r, hx.Case{ID: r.NewID(), Kind: "history", Args: []string{fmt.Sprint(si), strings.Join(h, ","), spec}}, sh)
 		}
@@ -396,6 +431,16 @@ func Run(r *hx.Run, replay []hx.Case) {
 			h := make([]string, l)
 			for j := range h {
 				h[j] = alphabet[r.Rng.Intn(len(alphabet))]
+				if s.extra == nil && r.Rng.Intn(6) == 0 {
+					switch r.Rng.Intn(3) {
+					case 0:
+						h[j] = "eS:" + hx.Hex([]byte(fmt.Sprintf("subject %d", r.Rng.Intn(1000))))
+					case 1:
+						h[j] = "eA:" + hx.Hex([]byte("text/x-added")) + ":" + []string{"base64", "quoted-printable", "8bit"}[r.Rng.Intn(3)] + ":" + hx.Hex([]byte(fmt.Sprintf("alternative %d\r\n", r.Rng.Intn(1000))))
+					default:
+						h[j] = "eT:" + hx.Hex([]byte(fmt.Sprintf("added%d.bin", r.Rng.Intn(10)))) + ":" + hx.Hex([]byte("application/octet-stream")) + ":" + hx.Hex([]byte(fmt.Sprintf("data %d", r.Rng.Intn(1000))))
+					}
+				}
 				if h[j][0] == 'K' && r.Rng.Intn(2) == 0 {
 					h[j] = fmt.Sprintf("K%d", r.Rng.Intn(1500))
 					if s.name == "sources" || r.Rng.Intn(4) == 0 {
